@@ -212,6 +212,15 @@ def monitor_c20(se, stats):
         if cur["server"] is not None and cur["server"] != (tot_r, tot_u + orphan, tot_r + tot_u + orphan):
             viol.append({"step": i, "what": "server figures ready/unacked/total %s but truth is %s (after `%s`)" % (
                 cur["server"], (tot_r, tot_u + orphan, tot_r + tot_u + orphan), st["op"])})
+        # (a') the admin overview, read at quiescence
+        adm = st.get("admin")
+        if adm:
+            stats["admin_overviews"] = stats.get("admin_overviews", 0) + 1
+            truth = {"connections": len(cur["conns"]), "channels": len(cur["chans"]), "queues": len(cur["queues"]),
+                     "exchanges": len(cur["exchanges"]), "consumers": sum(len(ch["consumers"]) for ch in cur["chans"].values())}
+            for k, v in truth.items():
+                if k in adm and adm[k] != v:
+                    viol.append({"step": i, "what": "admin overview reports %d %s, the broker holds %d (after `%s`)" % (adm[k], k, v, st["op"])})
         # (b) counts carried by replies
         if prev is not None:
             f = st["op"].split()
@@ -1237,6 +1246,8 @@ def monitor_c11(se, stats):
         if st["snap"] == ["WEDGED"] or "WEDGED" in (st.get("note") or "") or "TIMEOUT" in (st.get("note") or ""):
             viol.append({"step": i, "kind": "wedged", "what": "the broker stopped answering after `%s` (%s); last hostile input: %s" % (st["op"], st.get("note"), last_raw)})
             break
+        if "ADMIN-PANIC" in (st.get("note") or ""):
+            viol.append({"step": i, "kind": "admin-panic", "what": "an admin endpoint panicked while it was polled during `%s` (%s)" % (st["op"], st.get("note"))})
         if f[0] == "RAW":
             last_raw = st["op"]
             stats["hostile_inputs"] = stats.get("hostile_inputs", 0) + 1
